@@ -30,7 +30,7 @@ pub const COUNTERS: [u32; 6] = [0, 1, 0xff, 0x100, 0x01020304, 0xffff_ffff];
 
 pub fn ext_members(mc: bool) -> Vec<&'static str> {
     let mut v = if mc { vec!["credProtect", "hmac-secret", "largeBlobKey"] } else { vec!["hmac-secret"] };
-    if F_T {
+    if f_t() {
         v.push("thirdPartyPayment");
     }
     v
